@@ -383,8 +383,38 @@ class Flow:
         and the negation of every other variant."""
         out = []
         for n in self.dom_edges(bb):
-            out.extend(self.edge_facts(n))
+            out.extend(self.edge_facts_x(n))
         out.extend(self._merged_arm_facts(bb))
+        return out
+
+    def edge_facts_x(self, n):
+        """edge_facts(n) plus the same facts with single-definition named locals substituted by their definition
+        (`let len = self.file.object.transfer_length; if len == 0` also states `self.file.object.transfer_length == 0`).  Like every use of
+        Slicer.expand this assumes the local still holds what its definition read."""
+        if getattr(self, "_efx", None) is None:
+            self._efx = {}
+            self._sl = None
+        if n in self._efx:
+            return self._efx[n]
+        base = self.edge_facts(n)
+        if self._sl is None:
+            self._sl = Slicer(self.body)
+        out = list(base)
+        seen = set(show_fact(f) for f in base)
+        for (a, t) in base:
+            b = None
+            if a[0] in ("lt", "le", "eq"):
+                b = (a[0], self._sl.expand(a[1]), self._sl.expand(a[2]))
+            elif a[0] == "variant":
+                b = (a[0], strip_plumbing(self._sl.expand(a[1])), a[2])
+            elif a[0] == "true":
+                b = (a[0], self._sl.expand(a[1]))
+            if b is not None and b != a:
+                txt = show_fact((b, t))
+                if txt not in seen:
+                    seen.add(txt)
+                    out.append((b, t))
+        self._efx[n] = out
         return out
 
     def _merged_arm_facts(self, bb):
